@@ -280,6 +280,11 @@ def mergeStatus (mine theirs : List ConnStatus) : List ConnStatus :=
     let t := theirs.getD i {}
     { disconnected := t.disconnected || m.disconnected, lastFrame := max m.lastFrame t.lastFrame }
 
+/-- One accepted frame: remembered as a future decode reference, one Input event per player. -/
+def storeFrame (e : Endpoint) (f : Frame) (inp : Bytes) (pis : List PlayerInput) : Endpoint :=
+  { e with recvInputs := ainsert f inp e.recvInputs,
+           eventQueue := e.eventQueue ++ pis.zipIdx.map fun (pi, j) => ProtoEvent.input pi (e.handles.getD j 0) }
+
 /-- The loop over decoded inputs in `on_input`. `none` = a shape error made the function return
 early (no ack, no pruning). -/
 def acceptInputs (e : Endpoint) (startFrame : Frame) : List Bytes → Nat → Endpoint × Bool
@@ -290,10 +295,7 @@ def acceptInputs (e : Endpoint) (startFrame : Frame) : List Bytes → Nat → En
     else
       match toPlayerInputs inpFrame inp e.handles.length with
       | none => (e, false)
-      | some pis =>
-        let e := { e with recvInputs := ainsert inpFrame inp e.recvInputs }
-        let evs := pis.zipIdx.map fun (pi, j) => ProtoEvent.input pi (e.handles.getD j 0)
-        acceptInputs { e with eventQueue := e.eventQueue ++ evs } startFrame rest (i + 1)
+      | some pis => acceptInputs (e.storeFrame inpFrame inp pis) startFrame rest (i + 1)
 
 /-- First half of `on_input` after the shape checks: apply the piggy-backed ack and the
 connection-status gossip (or the disconnect request). -/
